@@ -311,7 +311,7 @@ def oracle(case, obs):
             out.append({"key": "order", "what": "flow %d: responseheaders before request although not streamed" % fo})
         if obs["settled"] and not obs["tunnel"] and not obs["crash"] and fl and not connect and not fl["up101"] and "requestheaders" in hs:
             n = hs.count("response") + hs.count("error")
-            if n != 1:
+            if n == 0:
                 out.append({"key": "no-outcome-" + outcome_family(hs), "what": "flow %d ends with hooks %s" % (fo, hs)})
             if fl["live"]:
                 out.append({"key": "still-live", "what": "flow %d is live after all connections closed (hooks %s)" % (fo, hs)})
